@@ -65,6 +65,9 @@ def build_quat(c, k):
 def build_array(c, k):
     sh, fill, dec, versor = c["shape"], c["fill"], c["dec"], c["versor"]
     N = (1, 2, 5)[k % 3]
+    layout = None
+    if "[" in sh:
+        sh, layout = sh.split("[")[0], sh.split("[")[1].rstrip("]")
     if sh in ("N3", "N4", "N2", "N5"):
         n = int(sh[1])
         rows, dirs = [], []
@@ -78,6 +81,14 @@ def build_array(c, k):
         if fill == "one-nan-row":
             rows[k % N] = [float("nan")] * n
         arg = np.array(rows) if base_fill in ("finite", "zero", "nan", "inf") else rows
+        if base_fill not in ("finite", "zero", "nan", "inf"):
+            layout = None       # strings / None entries cannot live in a float array of any layout
+        if layout == "F-order":
+            arg = np.asfortranarray(np.array(rows, dtype=float))
+        elif layout == "strided-view":
+            big = np.full((2 * N, 2 * n), 7.5)
+            big[::2, ::2] = np.array(rows, dtype=float)
+            arg = big[::2, ::2]
         return (lambda: QuaternionArray(arg, versors=versor)), dirs
     if sh == "v4":
         v, d = vec(4, fill if fill in Fills_basic else "finite", dec, k)
@@ -90,9 +101,41 @@ def build_array(c, k):
 Fills_basic = ("finite", "zero", "nan", "inf", "string", "none-entry")
 
 
+SIGNED_PERMS = [(1, 0, 0, 0), (1, 1, 0, 0), (1, 0, 0, 1), (0, 0, 1, 0), (1, 1, 1, 1), (1, -1, 1, -1)]      # elements of 2O: integer matrices
+
+
+def relayout(A, how):
+    """the same matrix (stack) in another memory layout / element type"""
+    A = np.array(A, dtype=float)
+    if how == "F-order":
+        return np.asfortranarray(A)
+    if how == "transposed-view":
+        return np.ascontiguousarray(np.swapaxes(A, -1, -2)).swapaxes(-1, -2)      # equal content, strides of a transposed array
+    if how == "strided-view":
+        big = np.full(A.shape[:-2] + (6, 6), 3.25)
+        big[..., ::2, ::2] = A
+        return big[..., ::2, ::2]
+    if how == "int-dtype":
+        return np.rint(A).astype(np.int64)
+    if how == "read-only":
+        B = A.copy()
+        B.setflags(write=False)
+        return B
+    raise KeyError(how)
+
+
 def mat_of_class(mc, k, rng):
     u = ROTS[k % len(ROTS)]
     R = core.g_rot(u)
+    if mc.startswith("rotation["):
+        how = mc[9:-1]
+        if how == "int-dtype":
+            u = SIGNED_PERMS[k % len(SIGNED_PERMS)]
+            R = core.g_rot(u)
+        return relayout(R, how), u
+    if mc == "stack-of-rotations[F-order]":
+        us = [ROTS[(k + i) % len(ROTS)] for i in range(2 + k % 3)]
+        return relayout(np.array([core.g_rot(x) for x in us]), "F-order"), us
     if mc == "rotation":
         return R, u
     if mc == "rotation+1e-12":
@@ -138,14 +181,16 @@ def build_dcm(c, k, rng):
     ctor, route, mc = c["ctor"], c["route"], c["mc"]
     if route == "matrix":
         M, u = mat_of_class(mc, k, rng)
+        keep = (lambda X: X) if "[" in mc else (lambda X: X.copy())      # a copy would undo the layout under test
+        Mf = np.array(M, dtype=float)
         if ctor == "DCM":
-            return (lambda: DCM(M.copy())), ("mat", M if u is not None else None)
+            return (lambda: DCM(keep(M))), ("mat", Mf if u is not None else None)
         if ctor == "Quaternion(dcm=)":
             m = ["shepperd", "itzhack"][k % 2]      # the methods defined on all of SO(3) (the grid has half-turns)
-            return (lambda: Quaternion(dcm=M.copy(), method=m)), ("quat-of-mat", M if u is not None else None)
+            return (lambda: Quaternion(dcm=keep(M), method=m)), ("quat-of-mat", Mf if u is not None else None)
         m = ["shepperd", "itzhack"][k % 2]      # the methods defined on all of SO(3) (the grid has half-turns)
-        return (lambda: QuaternionArray(DCM=M.copy(), method=m)), ("quats-of-mats", M if u is not None else None)
-    ang = {"rotation": 0.3 + 0.4 * k, "nan-entry": float("nan"), "zero": 0.0}[mc]
+        return (lambda: QuaternionArray(DCM=keep(M), method=m)), ("quats-of-mats", Mf if u is not None else None)
+    ang = {"rotation": 0.3 + 0.4 * k, "nan-entry": float("nan"), "zero": 0.0, "rotation[int-dtype]": 1}[mc]
     if route in ("x=", "y=", "z="):
         return (lambda: DCM(**{route[0]: ang})), ("mat", None)
     if route == "xyz=":
@@ -155,9 +200,18 @@ def build_dcm(c, k, rng):
     if route == "euler=":
         return (lambda: DCM(euler=("zxz", [0.1, ang, -0.4]))), ("mat", None)
     if route == "q=":
+        if mc == "rotation[int-dtype]":
+            qi = [np.array(ROTS[k % 6], dtype=np.int64), [int(c) for c in ROTS[(k + 1) % 6]], np.array([ROTS[k % 6], ROTS[(k + 2) % 6]], dtype=np.int64)][k % 3]
+            want = core.g_rot(ROTS[k % 6]) if k % 3 == 0 else (core.g_rot(ROTS[(k + 1) % 6]) if k % 3 == 1 else np.array([core.g_rot(ROTS[k % 6]), core.g_rot(ROTS[(k + 2) % 6])]))
+            if k % 3 == 2:
+                return (lambda: DCM().from_quaternion(qi)), ("mat", want)
+            return (lambda: DCM(q=qi)), ("mat", want)
         q = {"rotation": np.array(ROTS[k % 6], dtype=float) * (1.0 + k), "nan-entry": np.array([1.0, np.nan, 0, 0]), "zero": np.zeros(4)}[mc]
-        return (lambda: DCM(q=q.copy())), ("mat", None)
+        return (lambda: DCM(q=q.copy())), ("mat", core.g_rot(ROTS[k % 6]) if mc == "rotation" else None)
     if route == "axang=":
+        if mc == "rotation[int-dtype]":
+            axi = np.array(DIRS3[k % 5], dtype=np.int64)
+            return (lambda: DCM(axang=(axi, 1))), ("mat", None)
         ax = {"rotation": np.array(DIRS3[k % 5], dtype=float), "nan-entry": np.array([1.0, np.nan, 0.0]), "zero": np.zeros(3)}[mc]
         return (lambda: DCM(axang=(ax.copy(), 0.3 + 0.4 * k))), ("mat", None)
     raise KeyError(route)
@@ -196,6 +250,14 @@ def observe(c, k, rng):
         if versor and maxdiff(np.linalg.norm(rows, axis=1), np.ones(len(rows))) > 1e-12:
             return "wrapped-invalid", "not unit: %s" % a
         if isinstance(want, tuple) and want and want[0] in ("quat-of-mat", "quats-of-mats"):
+            if want[1] is not None:
+                from ..sensorworld import M_float
+                Ms = np.asarray(want[1], dtype=float).reshape(-1, 3, 3)
+                if len(rows) != len(Ms):
+                    return "wrapped-invalid", "%d quaternions for %d matrices" % (len(rows), len(Ms))
+                for r_, M_ in zip(rows, Ms):
+                    if maxdiff(M_float(r_), M_) > 1e-9:
+                        return "wrapped-invalid", "quaternion of another rotation: got matrix %s want %s" % (M_float(r_), M_)
             return "valid", ""
         if want is not None:
             wants = [want] if ctor == "Quaternion" else want
@@ -207,7 +269,7 @@ def observe(c, k, rng):
         return "valid", ""
     if not is_rotation(a):
         return "wrapped-invalid", "not a proper rotation"
-    if isinstance(want, tuple) and want[1] is not None and maxdiff(a, want[1]) > 1e-9:
+    if isinstance(want, tuple) and want[1] is not None and (a.shape != np.asarray(want[1]).shape or maxdiff(a, want[1]) > 1e-9):
         return "wrapped-invalid", "matrix changed"
     return "valid", ""
 
